@@ -36,6 +36,16 @@ def build_model(spec, route="ctor", cls=None, style=None, initialize=True):
     if cls is None:
         from bioscrape.types import Model as cls
     rx = [rxn_tuple(r, style) for r in spec["reactions"]]
+    # reactions marked with the same "share" group are given ONE parameter-dictionary object, the way a user writes
+    # `deg = {"k": "kdeg"}` once and passes it to several reactions
+    shared = {}
+    for i, r in enumerate(spec["reactions"]):
+        g = r.get("share")
+        if g is not None:
+            if g in shared and shared[g] == rx[i][3]:
+                rx[i] = rx[i][:3] + (shared[g],) + rx[i][4:]
+            else:
+                shared.setdefault(g, rx[i][3])
     rl = [rule_tuple(r, style) for r in spec.get("rules", [])]
     params = list(spec["params"].items())
     x0 = dict(spec.get("x0", {}))
